@@ -161,13 +161,23 @@ def destroy_keeps_registrations_inst(tier):
     return it
 
 
+def backend_entry_point_inst(tier):
+    """A_backend clause used by register_callback's stub, discharged for the verification backend itself: a registration
+    yields a non-zero entry point (the bundled no-op and dylib backends: C12, full_table_is_refused_never_entry_point_0)"""
+    cl = [('entry_point_is_never_zero', '__CPROVER_ensures((unsigned long)$ret != 0)'), ('frame', '__CPROVER_assigns()')]
+    h = '  struct %s be; uintptr_t in_key, in_cb;\n  unsigned long r = (unsigned long)$ROOT(&be, (void *)in_key, (void *)in_cb);\n' % cs('rlbox::vsbx')
+    return Inst('c13_backend_impl_register_callback', 'rlbox_sandbox<vsbx>& s, tainted<int, vsbx> (*f)(rlbox_sandbox<vsbx>&, tainted<long, vsbx>)', 's.register_callback(f);', cl, h,
+                leaves=[], prop=PROP, root_name='impl_register_callback', tier=tier, pre=PRE_GHOST,
+                root_pick=lambda tu, fn: find_func(tu, 'impl_register_callback', 'rlbox::vsbx'))
+
+
 def units(tier):
-    return [Unit('C13_callback_ownership', [register_inst(tier), unregister_cb_inst(tier), destroy_keeps_registrations_inst(tier)] + owner_insts(tier))]
+    return [Unit('C13_callback_ownership', [register_inst(tier), unregister_cb_inst(tier), destroy_keeps_registrations_inst(tier), backend_entry_point_inst(tier)] + owner_insts(tier))]
 
 
 ASSUMPTIONS = [
     'backend slot functions impl_register_callback / impl_unregister_callback are contract stubs that record their arguments (the bundled backends\' bodies are verified under C12)',
-    'A_backend: impl_register_callback returns a non-zero entry point or aborts (proved for the bundled no-op and dylib backends under C12; the core itself does not test for 0, so a third-party backend that returns 0 when full would get a registered-looking owner)',
+    'A_backend: impl_register_callback returns a non-zero entry point or aborts (proved for the bundled no-op and dylib backends under C12 and for the verification backend by instance c13_backend_impl_register_callback; the core itself does not test for 0, so a third-party backend that returns 0 when full would get a registered-looking owner; the other clauses of register_callback are proved for the non-zero case only)',
     'M-vec model of callback_keys; M-lock (lock_guard dropped); M-atomic (status read sequentially)',
     'environment: at most two other keys in this sandbox\'s callback_keys (positions enumerated); the vector helpers themselves are verified for every length',
 ]
